@@ -150,8 +150,64 @@ def run_main(fs, truth, given, method):
         undo()
 
 
+def grid_clean(rid, truth):
+    """generated shapes (lib/grid.py) outside the regions of the round-trip family's known findings for a sync with this truth kind"""
+    from lib import grid
+    from lib.domain import ABSENT
+    from doctrans.ast_utils import NoneStr
+
+    _, params, ret = grid.ROWS[rid]
+    es = [(n, t, p, d) for n, t, p, d in params] + ([("return_type", ret[0], ret[1], ret[2])] if ret else [])
+    code = lambda d: isinstance(d, str) and d.startswith("```") and d != NoneStr  # noqa: E731
+    if any(t is None or not p for _, t, p, _ in params):
+        return False  # untyped / prose-less parameters
+    if any(isinstance(d, str) and (d == "" or code(d)) for _, _, _, d in es):
+        return False  # empty-string and code defaults
+    if any(t == "Union[int, str]" and d != ABSENT for _, t, _, d in es):
+        return False
+    if any(d == NoneStr and t in ("int", "str", "float", "bool") for _, t, _, d in params):
+        return False  # KF-RT-class-none-to-zero
+    if any(t == "bool" and d == ABSENT for _, t, _, d in params):
+        return False  # KF-RT-argparse-bool-optional
+    if ret and ret[2] == ABSENT:
+        return False  # only a return entry that carries a default is representable everywhere
+    if truth == "argparse_function":
+        if ret or any(n.endswith("kwargs") for n, _, _, _ in params):
+            return False
+        if any((d == ABSENT and t not in ("int", "str", "float")) or d == NoneStr for _, t, _, d in params):
+            return False
+    return True
+
+
+def grid_cells(tier):
+    from harness.syncenv import GRID_IDS
+
+    cells = [(t, i) for i, rid in enumerate(GRID_IDS) for t in range(3) if grid_clean(rid, KINDS[t])]
+    return cells if tier != "quick" else [c for n, c in enumerate(cells) if n % 6 == 0]
+
+
+def agrees_grid(quick, c, pre, method, active):
+    """cell c = (truth kind, generated shape): all three kinds given, both targets in pre-state `pre`"""
+    c = realize(c)
+    t, i = grid_cells("quick" if quick else "thorough")[c]
+    return agrees(t, 0, pre, pre, method, 100 + i, active)
+
+
 def obligations(tier, seed):
     obs = []
+    ncell = len(grid_cells(tier))
+    for pre_, m in ((0, 0), (2, 0), (3, 0), (0, 1)) if tier == "quick" else [(p_, m_) for p_ in (0, 1, 2, 3) for m_ in (0, 1)]:
+        for lo in range(0, ncell, 32):
+            hi = min(lo + 32, ncell)
+            if tier == "quick" and (pre_, m, lo // 32) not in ((0, 0, 0), (0, 0, 1), (3, 0, 0), (2, 0, 1), (0, 1, 1)):
+                continue
+            obs.append(Ob(name="agrees_grid_%s_%s_%d" % (PRE[pre_], "method" if m else "function", lo // 32), params=[("c", "int")],
+                          pre=["%d <= c < %d" % (lo, hi)],
+                          body="H.agrees_grid(%r, c, %d, %d, {ACTIVE})" % (tier == "quick", pre_, m), witness=(lo,), kind="F",
+                          bounds="cells %d..%d of %d (truth kind x generated shape of lib/grid.py outside the known-finding regions of the round-trip "
+                          "family - grid_clean), all three kinds given, both targets %s, function target is a %s"
+                          % (lo, hi - 1, ncell, PRE[pre_], "method" if m else "top-level function"),
+                          timeout=280 if tier == "quick" else 1200, path_timeout=120, funcs=FUNCS))
     for t in range(3):
         for m in (0, 1):
             for via in (False, True):
